@@ -16,6 +16,10 @@ Lines:
   endpoint does), `sess` the session-level verdict (`ok` or `<stage>:<class>`),
   and the last field the effective permissions/file/directory modes of the
   local endpoint for each merged configuration.
+* `alias <k> <base> <mid> <h1> <h2>` — layered merges: `lower = merge base mid` (its ignore slices
+  re-allocated with `k` spare elements of capacity by the harness), then `merge lower h1` and
+  `merge lower h2` on the same `lower`. Output (rendered after both merges):
+  `<lower> | <merge lower h1> | <merge lower h2>`.
 * `text <table> <value>` — `MarshalText` of the value, `UnmarshalText` of that
   text, `Supported()`: `<hex text> <value|err> <0|1>`.
 * `parse <table> <hex text>` — `UnmarshalText`: `<value|err>`.
@@ -107,6 +111,13 @@ def handle (line : String) : String :=
           | .error _ => "-")
       else base
     | _, _, _ => "bad-line"
+  | ["alias", _k, base, mid, h1, h2] =>
+    -- layered merges sharing one lower configuration (the harness adds spare slice capacity `k`)
+    match parseConfig base, parseConfig mid, parseConfig h1, parseConfig h2 with
+    | some base, some mid, some h1, some h2 =>
+      let lower := merge base mid
+      s!"{showConfig lower} | {showConfig (merge lower h1)} | {showConfig (merge lower h2)}"
+    | _, _, _, _ => "bad-line"
   | ["text", t, v] =>
     match table t, v.toNat? with
     | some t', some v =>
